@@ -106,6 +106,8 @@ pub struct GenCfg {
     pub query_delete: bool,
     /// DataKeySelector / AnnotationDataSelector as members of complex selectors
     pub keydata_in_complex: bool,
+    /// refer to existing items by their temporary id (`!A3`) now and then
+    pub by_temp_id: bool,
 }
 
 impl Default for GenCfg {
@@ -130,6 +132,7 @@ impl Default for GenCfg {
             rm_boost: 1,
             query_delete: false,
             keydata_in_complex: false,
+            by_temp_id: true,
         }
     }
 }
@@ -161,7 +164,17 @@ impl Gen {
         }
     }
 
+    fn temp(&self, rng: &mut Rng, letter: char, h: usize) -> Option<Ref> {
+        if self.cfg.by_temp_id && rng.chance(1, 8) {
+            Some(Ref::Id(format!("!{}{}", letter, h)))
+        } else {
+            None
+        }
+    }
     fn r_res(&self, rng: &mut Rng, m: &Model, h: usize) -> Ref {
+        if let Some(t) = self.temp(rng, 'R', h) {
+            return t;
+        }
         if self.cfg.by_handle && rng.chance(1, 3) {
             Ref::Handle(h)
         } else {
@@ -169,6 +182,9 @@ impl Gen {
         }
     }
     fn r_set(&self, rng: &mut Rng, m: &Model, h: usize) -> Ref {
+        if let Some(t) = self.temp(rng, 'S', h) {
+            return t;
+        }
         if self.cfg.by_handle && rng.chance(1, 3) {
             Ref::Handle(h)
         } else {
@@ -176,12 +192,18 @@ impl Gen {
         }
     }
     fn r_ann(&self, rng: &mut Rng, m: &Model, h: usize) -> Ref {
+        if let Some(t) = self.temp(rng, 'A', h) {
+            return t;
+        }
         match &m.anns[&h].id {
             Some(id) if !(self.cfg.by_handle && rng.chance(1, 3)) => Ref::Id(id.clone()),
             _ => Ref::Handle(h),
         }
     }
     fn r_key(&self, rng: &mut Rng, m: &Model, s: usize, k: usize) -> Ref {
+        if let Some(t) = self.temp(rng, 'K', k) {
+            return t;
+        }
         if self.cfg.by_handle && rng.chance(1, 3) {
             Ref::Handle(k)
         } else {
@@ -189,6 +211,9 @@ impl Gen {
         }
     }
     fn r_data(&self, rng: &mut Rng, m: &Model, s: usize, d: usize) -> Ref {
+        if let Some(t) = self.temp(rng, 'D', d) {
+            return t;
+        }
         match &m.sets[&s].data[&d].id {
             Some(id) if !(self.cfg.by_handle && rng.chance(1, 3)) => Ref::Id(id.clone()),
             _ => Ref::Handle(d),
